@@ -45,6 +45,7 @@ ABLATIONS = {
  "MaybePersistBelowFirstUpdate": ("MC_ready", {"TickNodes": "{1, 2}", "MaxTerm": 2, "MaxProposals": 1, "MaxDepth": 40}, C([1,2],[1,2],[]), ["C07", "C14"]),
  "CommitTermCheck": ("MC_change", {"MaxTerm": 3, "MaxProposals": 1, "MaxDrops": 2, "MaxLog": 3, "TickNodes": "{1, 2}"}, C([1,2,3],[1,2,3],[]), ["C04", "C01"]),
  "RestoreRejectsOlderThanRequest": ("MC_reqsnap", {}, C([1,2],[1,2],[]), ["C15", "C04"], ["C15.InstallKeepsAcked"]),
+ "PersistMarkClearedByNumber": ("MC_async", {"MaxDepth": 24, "MaxLeaderTicks": 1, "MaxLog": 3}, C([1,2],[1],[2]), ["C06"], ["C06.PersistBeforeSend"]),
  "HupWaitsForPersistOnSelfQuorum": ("MC_conf", {"MIds": "{1, 2}", "MVoters": "{1, 2}", "TickNodes": "{1, 2}", "MaxTerm": 2, "MaxConf": 1, "ConfMenuIds": "{4}", "Fine": "TRUE", "EagerReady": "FALSE", "AllowAsync": "TRUE", "LazyApply": "FALSE", "MaxProposals": 1, "MaxLog": 4, "MaxDepth": 44}, C([1,2],[1,2],[]), ["C20"]),
 }
 
